@@ -1,3 +1,44 @@
 package main
 
-func cmdSelftest(args []string) int { return 2 }
+import (
+	"fmt"
+	"os"
+)
+
+// cmdSelftest validates the engine itself before any check result is
+// believed: (1) interval-domain verdicts are cross-checked against the solver
+// on sample harnesses; (2) see selftest_diff.go for the translator validation
+// against the natively compiled functions.
+func cmdSelftest(args []string) int {
+	type st struct {
+		pkg, entry string
+		maxPaths   int64
+	}
+	runs := []st{
+		{"headers", "zzH_smoke_trim", 0},
+		{"headers", "zzH_smoke_check", 0},
+		{"cors", "zzH_C03_api", 1500},
+	}
+	for _, r := range runs {
+		opts := defaultOptions()
+		opts.CheckAbstract = true
+		opts.MaxPaths = r.maxPaths
+		opts.ConfirmEvery = 1
+		e, err := runHarness(r.pkg, r.entry, opts)
+		if err != nil {
+			fmt.Fprintln(os.Stderr, "selftest: ", r.entry, err)
+			return 2
+		}
+		s := e.stats
+		if len(e.violations) > 0 || s.Unsupported > 0 || s.Disagreements > 0 || s.Inconclusive > 0 {
+			fmt.Fprintf(os.Stderr, "selftest: %s: violations=%d unsupported=%d disagreements=%d inconclusive=%d\n%s", r.entry, len(e.violations), s.Unsupported, s.Disagreements, s.Inconclusive, e.summary())
+			return 2
+		}
+		fmt.Printf("selftest %s/%s: %d paths, %d interval verdicts cross-checked against the solver, %d obligations confirmed by the second solver\n", r.pkg, r.entry, s.Paths, s.AbsCrossChecks, s.Discharged)
+	}
+	if rc := selftestDiff(); rc != 0 {
+		return rc
+	}
+	fmt.Println("selftest OK")
+	return 0
+}
